@@ -22,6 +22,7 @@ impl Compiler {
     fn arm_call(&mut self, left: &Box<Expr>, arguments: &Vec<Expr>) -> (r: Result<(), Error>)
         requires gen_inv(*old(self))
         ensures
+            r is Ok ==> hstep(old(self).height@, final(self).height@, 1),
             //@VACUITY
             sym_wf(final(self).symbols),
             r is Ok ==> ({
@@ -38,15 +39,17 @@ impl Compiler {
             r is Ok ==> is_prefix(old(self).instructions@, final(self).instructions@),
             r is Ok ==> gen_post(*old(self), *final(self), true),
     {
-//@LOOP 1 invariant gen_inv(*self), gen_inv(*old(self)), gen_post(*old(self), *self, false), sym_depth(self.symbols) == sym_depth(old(self).symbols), sym_contexts(self.symbols) == sym_contexts(old(self).symbols), sym_outer(self.symbols) == sym_outer(old(self).symbols), is_prefix(old(self).instructions@, self.instructions@), self.log@.len() == old(self).log@.len() + __it.index@, forall|j: int| 0 <= j < __it.index@ ==> #[trigger] self.log@[old(self).log@.len() + j].what == LogWhat::E(arguments@[j]),
+//@LOOP 1 invariant hstep(old(self).height@, self.height@, __it.index@ as int), gen_inv(*self), gen_inv(*old(self)), gen_post(*old(self), *self, false), sym_depth(self.symbols) == sym_depth(old(self).symbols), sym_contexts(self.symbols) == sym_contexts(old(self).symbols), sym_outer(self.symbols) == sym_outer(old(self).symbols), is_prefix(old(self).instructions@, self.instructions@), self.log@.len() == old(self).log@.len() + __it.index@, forall|j: int| 0 <= j < __it.index@ ==> #[trigger] self.log@[old(self).log@.len() + j].what == LogWhat::E(arguments@[j]),
 //@PRELOOP 1 proof { lemma_gen_post_refl(*old(self)); }
 //@GHOST before="self.compile_expression(a)?;" let ghost s_it = *self;
 //@GHOST after="self.compile_expression(a)?;" proof { lemma_gen_post_trans(*old(self), s_it, *self, false, true); }
 //@GHOST before="if let Expr::Identifier(name) = &**left {" let ghost s_loop = *self;
-//@GHOST after="self.emit_u8(to_u8(arguments.len())?);" proof { let n0 = s_loop.instructions@.len() as int; assert(self.instructions@ =~= s_loop.instructions@ + self.instructions@.subrange(n0, n0 + 3)); lemma_gen_post_append(s_loop, *self, self.instructions@.subrange(n0, n0 + 3)); lemma_gen_post_trans(*old(self), s_loop, *self, false, true); lemma_gen_post_upgrade(*old(self), *self); }
+//@GHOST after="self.emit_u8(to_u8(arguments.len())?);" proof { /* operand effect of CallBuiltin <argc>: the arguments are consumed */ self.height = Ghost(hplus(self.height@, -(arguments@.len() as int))); let n0 = s_loop.instructions@.len() as int; assert(self.instructions@ =~= s_loop.instructions@ + self.instructions@.subrange(n0, n0 + 3)); lemma_gen_post_append(s_loop, *self, self.instructions@.subrange(n0, n0 + 3)); lemma_gen_post_trans(*old(self), s_loop, *self, false, true); lemma_gen_post_upgrade(*old(self), *self); }
 //@GHOST after="self.compile_expression(left)?;" let ghost s_left = *self;
 //@ARM file=compiler.rs fn=compile_expression impl=Compiler arm="Expr::Call" rules="R1;R4;R14[compile_call];R8[for a in arguments {=>for a in __it: arguments {];R3[builtin as u8=>builtin.byte]"
         proof {
+            // operand effect of Call <argc>: the arguments are consumed (the callee word is replaced by the result)
+            self.height = Ghost(hplus(self.height@, -(arguments@.len() as int)));
             let n1 = s_left.instructions@.len() as int;
             assert(self.instructions@ =~= s_left.instructions@ + self.instructions@.subrange(n1, n1 + 2));
             lemma_gen_post_append(s_left, *self, self.instructions@.subrange(n1, n1 + 2));
@@ -61,6 +64,7 @@ impl Compiler {
     fn arm_array(&mut self, values: &Vec<Expr>) -> (r: Result<(), Error>)
         requires gen_inv(*old(self))
         ensures
+            r is Ok ==> hstep(old(self).height@, final(self).height@, 1),
             //@VACUITY
             sym_wf(final(self).symbols),
             r is Ok ==> ({
@@ -73,13 +77,15 @@ impl Compiler {
             r is Ok ==> is_prefix(old(self).instructions@, final(self).instructions@),
             r is Ok ==> gen_post(*old(self), *final(self), true),
     {
-//@LOOP 1 invariant gen_inv(*self), gen_inv(*old(self)), gen_post(*old(self), *self, false), sym_depth(self.symbols) == sym_depth(old(self).symbols), sym_contexts(self.symbols) == sym_contexts(old(self).symbols), sym_outer(self.symbols) == sym_outer(old(self).symbols), is_prefix(old(self).instructions@, self.instructions@), self.log@.len() == old(self).log@.len() + __it.index@, forall|j: int| 0 <= j < __it.index@ ==> #[trigger] self.log@[old(self).log@.len() + j].what == LogWhat::E(values@[j]),
+//@LOOP 1 invariant hstep(old(self).height@, self.height@, __it.index@ as int), gen_inv(*self), gen_inv(*old(self)), gen_post(*old(self), *self, false), sym_depth(self.symbols) == sym_depth(old(self).symbols), sym_contexts(self.symbols) == sym_contexts(old(self).symbols), sym_outer(self.symbols) == sym_outer(old(self).symbols), is_prefix(old(self).instructions@, self.instructions@), self.log@.len() == old(self).log@.len() + __it.index@, forall|j: int| 0 <= j < __it.index@ ==> #[trigger] self.log@[old(self).log@.len() + j].what == LogWhat::E(values@[j]),
 //@PRELOOP 1 proof { lemma_gen_post_refl(*old(self)); }
 //@GHOST before="self.compile_expression(v)?;" let ghost s_it = *self;
 //@GHOST after="self.compile_expression(v)?;" proof { lemma_gen_post_trans(*old(self), s_it, *self, false, true); }
 //@GHOST before="self.emit_opcode(OpCode::Array);" let ghost s_loop = *self;
 //@ARM file=compiler.rs fn=compile_expression impl=Compiler arm="Expr::Array" rules="R1;R4;R8[for v in values {=>for v in __it: values {]"
         proof {
+            // operand effect of Array <count>: the elements are consumed
+            self.height = Ghost(hplus(self.height@, -(values@.len() as int)));
             let n1 = s_loop.instructions@.len() as int;
             assert(self.instructions@ =~= s_loop.instructions@ + self.instructions@.subrange(n1, n1 + 3));
             lemma_gen_post_append(s_loop, *self, self.instructions@.subrange(n1, n1 + 3));
@@ -93,6 +99,7 @@ impl Compiler {
     fn arm_index(&mut self, left: &Box<Expr>, index: &Box<Expr>) -> (r: Result<(), Error>)
         requires gen_inv(*old(self))
         ensures
+            r is Ok ==> hstep(old(self).height@, final(self).height@, 1),
             //@VACUITY
             sym_wf(final(self).symbols),
             r is Ok ==> (logged_in_order(*old(self), *final(self), seq![**left, **index], 0) && final(self).instructions@.last() == opcode_byte(OpCode::IndexGet)),
@@ -115,6 +122,7 @@ impl Compiler {
     fn arm_prefix(&mut self, operator: &Operator, right: &Box<Expr>) -> (r: Result<(), Error>)
         requires gen_inv(*old(self))
         ensures
+            r is Ok ==> hstep(old(self).height@, final(self).height@, 1),
             //@VACUITY
             sym_wf(final(self).symbols),
             r is Ok ==> (logged_in_order(*old(self), *final(self), seq![**right], 0)
@@ -138,6 +146,7 @@ impl Compiler {
     fn arm_bool(&mut self, value: &bool) -> (r: Result<(), Error>)
         requires gen_inv(*old(self))
         ensures
+            r is Ok ==> hstep(old(self).height@, final(self).height@, 1),
             //@VACUITY
             sym_wf(final(self).symbols),
             r is Ok, final(self).instructions@ == old(self).instructions@.push(opcode_byte(if *value { OpCode::True } else { OpCode::False })),
@@ -158,6 +167,7 @@ impl Compiler {
     fn arm_int(&mut self, value: &isize) -> (r: Result<(), Error>)
         requires gen_inv(*old(self))
         ensures
+            r is Ok ==> hstep(old(self).height@, final(self).height@, 1),
             //@VACUITY
             sym_wf(final(self).symbols),
             !(MIN_INT <= *value <= MAX_INT) ==> (r is Err && final(self).instructions@ == old(self).instructions@),
@@ -187,6 +197,7 @@ impl Compiler {
     fn arm_stmt_expr(&mut self, expr: &Expr) -> (r: Result<(), Error>)
         requires gen_inv(*old(self))
         ensures
+            r is Ok ==> hstep(old(self).height@, final(self).height@, 0),
             //@VACUITY
             sym_wf(final(self).symbols),
             r is Ok ==> (logged_in_order(*old(self), *final(self), seq![*expr], 0) && final(self).instructions@.last() == opcode_byte(OpCode::Pop)
@@ -209,6 +220,7 @@ impl Compiler {
     fn arm_stmt_return(&mut self, expr: &Expr) -> (r: Result<(), Error>)
         requires gen_inv(*old(self))
         ensures
+            r is Ok ==> hstep(old(self).height@, final(self).height@, 0),
             //@VACUITY
             sym_wf(final(self).symbols),
             !sym_in_function(old(self).symbols) ==> (r matches Err(Error::SyntaxError(_)) && final(self).instructions@ == old(self).instructions@ && final(self).log@ == old(self).log@),
@@ -232,6 +244,7 @@ impl Compiler {
     fn arm_stmt_block(&mut self, stmts: &Vec<Stmt>) -> (r: Result<(), Error>)
         requires gen_inv(*old(self))
         ensures
+            r is Ok ==> hstep(old(self).height@, final(self).height@, 0),
             sym_wf(final(self).symbols),
             //@VACUITY
             r is Ok ==> final(self).last_instruction == Some(OpCode::Pop) && final(self).instructions@.last() == opcode_byte(OpCode::Pop),
@@ -254,6 +267,7 @@ impl Compiler {
     fn arm_float(&mut self, value: &f64) -> (r: Result<(), Error>)
         requires gen_inv(*old(self))
         ensures
+            r is Ok ==> hstep(old(self).height@, final(self).height@, 1),
             //@VACUITY
             sym_wf(final(self).symbols),
             r is Ok ==> ({
@@ -281,6 +295,7 @@ impl Compiler {
     fn arm_string(&mut self, value: &String) -> (r: Result<(), Error>)
         requires gen_inv(*old(self))
         ensures
+            r is Ok ==> hstep(old(self).height@, final(self).height@, 1),
             //@VACUITY
             sym_wf(final(self).symbols),
             r is Ok ==> ({
